@@ -83,7 +83,7 @@ theorem step_quit {s : St} (k : Nat) (h : QuitInv s) : QuitInv (step s k) := by
 theorem run_quit {s : St} (sched : List Nat) (h : QuitInv s) : QuitInv (run s sched) :=
   run_invariant (fun _ k h => step_quit k h) h sched
 
-theorem init_quit (elt wl : Bool) (tbl) (dtbl) (pre) (progs) : QuitInv (init elt wl tbl dtbl pre progs) := by
+theorem init_quit (elt wl : Bool) (tbl) (dtbl) (pre) (again) (progs) : QuitInv (init elt wl tbl dtbl pre again progs) := by
   cases elt <;> (refine ⟨?_, ?_, ?_, ?_, ?_, ?_⟩ <;> simp [init, exited])
 
 end MuduoVerif.Loop
